@@ -1674,3 +1674,164 @@ example : (minimizeM (⟨fun k x => (x + k, k), fun s => decide (2 ≤ s), fun _
     (fun v => v 0) 2 5 id 0 (fun i => 100 + i)).2 = 4 := by decide
 example : (minimizeM (⟨fun k x => (x + k, k), fun s => decide (9 ≤ s), fun _ => true⟩ : MinImpl Nat Nat)
     (fun v => v 0) 2 3 id 0 (fun i => 100 + i)).2 = 6 := by decide
+
+/-! ## create_trial_data_file / extend_trial_data_file with grids of signal strengths -/
+
+section createFile
+variable {V D R G : Type}
+
+namespace C08
+
+theorem doTrials_ok (gen : Nat → Nat → V) (toSeed : V → Nat) (cfg : TrialCfg V D R) (n ncpu : Nat) (w : World)
+    (a : Nat) (ms : Option Nat) (r : ParOut D R) (h : doTrials gen toSeed cfg n ncpu w a ms = .ok r) :
+    0 < n ∧ 0 < ncpu ∧ r = parTrials gen toSeed cfg n ncpu w a ms := by
+  unfold doTrials at h
+  split_ifs at h with h1 h2
+  simp only [Except.ok.injEq] at h
+  exact ⟨by omega, by omega, h.symm⟩
+
+/-- what the loop over the grid returns when nothing raises -/
+theorem createLoop_ok (gen : Nat → Nat → V) (toSeed : V → Nat) (cfgOf : G → TrialCfg V D R) (n ncpu a : Nat)
+    (ms : Option Nat) (grid : List G) (w : World) (rows : List (TrialOut D R)) (w' : World)
+    (h : createLoop gen toSeed cfgOf n ncpu a ms grid w = (.ok rows, w')) :
+    (grid = [] ∨ (0 < n ∧ 0 < ncpu)) ∧ rows.length = n * grid.length ∧ (w' a).seed = (w a).seed ∧
+      (ncpu ≤ 1 → ∀ o ∈ rows, o.seed = (w a).seed) := by
+  induction grid generalizing w rows w' with
+  | nil =>
+    simp only [createLoop, Prod.mk.injEq, Except.ok.injEq] at h
+    obtain ⟨rfl, rfl⟩ := h
+    simp
+  | cons g rest ih =>
+    unfold createLoop at h
+    cases hd : doTrials gen toSeed (cfgOf g) n ncpu w a ms with
+    | error e => rw [hd] at h; cases e <;> simp at h
+    | ok r =>
+      rw [hd] at h
+      simp only at h
+      obtain ⟨hn, hc, hr⟩ := doTrials_ok gen toSeed (cfgOf g) n ncpu w a ms r hd
+      cases hl : createLoop gen toSeed cfgOf n ncpu a ms rest r.world with
+      | mk res w2 =>
+        rw [hl] at h
+        cases res with
+        | error e => simp at h
+        | ok rows2 =>
+          simp only [Prod.mk.injEq, Except.ok.injEq] at h
+          obtain ⟨rfl, rfl⟩ := h
+          obtain ⟨-, i2, i3, i4⟩ := ih r.world rows2 w2 hl
+          have hseed : (r.world a).seed = (w a).seed := by
+            rw [hr]; exact (c08_worker_seeds_fn gen toSeed (cfgOf g) n ncpu w a ms).2.2
+          have hlen : r.outs.length = n := by rw [hr]; exact c08_trials_count gen toSeed (cfgOf g) n ncpu w a ms
+          refine ⟨Or.inr ⟨hn, hc⟩, ?_, by rw [i3, hseed], ?_⟩
+          · simp only [List.length_append, List.length_cons, hlen, i2]; ring
+          · intro hle o ho
+            rcases List.mem_append.mp ho with ho | ho
+            · have := c08_row_seeds gen toSeed (cfgOf g) n ncpu w a ms o (by rw [← hr]; exact ho)
+              rcases this with h1 | h1
+              · exact h1
+              · have h0 : ncpu - 1 = 0 := by omega
+                simp [workerSeeds, h0] at h1
+            · rw [i4 hle o ho, hseed]
+
+end C08
+
+/-- **`create_trial_data_file` returns exactly when there is something to do**: at least one grid
+point, `n ≥ 1`, `ncpu ≥ 1` (else `RuntimeError` / `IndexError` / `ValueError`); then it returns
+`n` rows per grid point, the service keeps its seed and — with one process — every row is labelled
+with that seed. -/
+theorem c08_create_file_spec (gen : Nat → Nat → V) (toSeed : V → Nat) (cfgOf : G → TrialCfg V D R)
+    (n ncpu a : Nat) (ms : Option Nat) (grid : List G) (w : World) (rows : List (TrialOut D R)) (w' : World)
+    (h : createFile gen toSeed cfgOf n ncpu a ms grid w = (.ok rows, w')) :
+    grid ≠ [] ∧ 0 < n ∧ 0 < ncpu ∧ rows.length = n * grid.length ∧ 1 ≤ rows.length ∧
+      (w' a).seed = (w a).seed ∧ (ncpu ≤ 1 → ∀ o ∈ rows, o.seed = (w a).seed) := by
+  unfold createFile at h
+  cases hl : createLoop gen toSeed cfgOf n ncpu a ms grid w with
+  | mk res w2 =>
+    rw [hl] at h
+    cases res with
+    | error e => simp at h
+    | ok rows2 =>
+      simp only at h
+      by_cases he : grid.isEmpty = true
+      · rw [if_pos he] at h; simp at h
+      rw [if_neg he] at h
+      simp only [Prod.mk.injEq, Except.ok.injEq] at h
+      obtain ⟨rfl, rfl⟩ := h
+      have hne : grid ≠ [] := by
+        intro hg; subst hg; simp at he
+      obtain ⟨i1, i2, i3, i4⟩ := C08.createLoop_ok gen toSeed cfgOf n ncpu a ms grid w rows2 w2 hl
+      rcases i1 with i1 | ⟨hn, hc⟩
+      · exact absurd i1 hne
+      · have hgl : 1 ≤ grid.length := by
+          cases grid with
+          | nil => exact absurd rfl hne
+          | cons _ _ => simp
+        refine ⟨hne, hn, hc, i2, ?_, i3, i4⟩
+        rw [i2]
+        exact Nat.mul_pos hn hgl
+
+/-- **the extended file, as the code builds it**: when `extend_trial_data_file` returns (one
+process), the new file is the old one followed by `k ≥ 1` rows that all carry one seed `s`; `s` is
+the seed the unused-seed search yields for the caller's service, it does not occur in the old file,
+and it is the seed the caller's service is left with.  (The hypothesis "at least one row per
+extension" of `c08_extend_history_fresh` is thus established by the code: an extension that would
+add nothing raises.) -/
+theorem c08_extend_file_fresh (gen : Nat → Nat → V) (toSeed : V → Nat) (cfgOf : G → TrialCfg V D R)
+    (start n ncpu a : Nat) (ms : Option Nat) (grid : List G) (file : List Nat) (w : World)
+    (file' : List Nat) (rows : List (TrialOut D R)) (w' : World) (hc : ncpu ≤ 1)
+    (h : extendFile gen toSeed cfgOf start n ncpu a ms grid file w = (.ok (file', rows), w')) :
+    ∃ k, 1 ≤ k ∧ k = n * grid.length ∧
+      file' = file ++ List.replicate k (extendSeed start file (w a).seed) ∧
+      extendSeed start file (w a).seed ∉ file ∧ (w' a).seed = extendSeed start file (w a).seed := by
+  unfold extendFile at h
+  simp only at h
+  cases hcf : createFile gen toSeed cfgOf n ncpu a ms grid
+      (if (w a).seed ∈ file then w.set a (Stream.fresh (nextSeed start file)) else w) with
+  | mk res w2 =>
+    rw [hcf] at h
+    cases res with
+    | error e => simp at h
+    | ok rows2 =>
+      simp only [Prod.mk.injEq, Except.ok.injEq] at h
+      obtain ⟨⟨rfl, rfl⟩, rfl⟩ := h
+      obtain ⟨-, -, -, i4, i5, i6, i7⟩ := c08_create_file_spec gen toSeed cfgOf n ncpu a ms grid _ rows2 w2 hcf
+      have hs : ((if (w a).seed ∈ file then w.set a (Stream.fresh (nextSeed start file)) else w) a).seed =
+          extendSeed start file (w a).seed := by
+        unfold extendSeed
+        split_ifs with hin
+        · rw [C08.set_same]; rfl
+        · rfl
+      refine ⟨rows2.length, i5, i4, ?_, c08_next_seed_fresh start file (w a).seed, by rw [i6, hs]⟩
+      congr 1
+      apply List.ext_getElem
+      · simp
+      · intro i h1 h2
+        simp only [List.getElem_map, List.getElem_replicate]
+        rw [i7 hc _ (List.getElem_mem _), hs]
+
+end createFile
+
+section grid
+variable {K : Type} [Field K] [LinearOrder K] [IsStrictOrderedRing K] [FloorRing K]
+
+/-- a single number as `mean_n_sig` is a grid of exactly that value -/
+theorem c08_grid_scalar (m : K) : gridOf (fun i : Nat => (i : K)) (fun x => ⌈x⌉₊) (.scalar m) = [m] := by
+  simp [gridOf, arange]
+
+/-- a `(min, max)` or `(min, max, step)` argument gives an empty grid — the `RuntimeError` of
+`create_trial_data_file` — exactly when `max + 1 ≤ min` (positive step) -/
+theorem c08_grid_range_empty_iff (a b st : K) (hst : 0 < st) :
+    gridOf (fun i : Nat => (i : K)) (fun x => ⌈x⌉₊) (.range3 a b st) = [] ↔ b + 1 ≤ a := by
+  simp only [gridOf, arange, List.map_eq_nil_iff, List.range_eq_nil, Nat.ceil_eq_zero]
+  rw [div_le_iff₀ hst]
+  constructor <;> intro h <;> linarith
+
+theorem c08_grid_range2_is_range3 (a b : K) :
+    gridOf (fun i : Nat => (i : K)) (fun x => ⌈x⌉₊) (.range2 a b) =
+      gridOf (fun i : Nat => (i : K)) (fun x => ⌈x⌉₊) (.range3 a b 1) := rfl
+
+end grid
+
+example : gridOf (fun i : Nat => (i : ℚ)) (fun x => ⌈x⌉₊) (.range3 0 2 1) = [0, 1, 2] := by
+  have h : ⌈((2 : ℚ) + 1 - 0) / 1⌉₊ = 3 := by norm_num
+  simp only [gridOf, arange, h]
+  simp [List.range_succ]
